@@ -22,4 +22,11 @@ if [ "$ID" = C19 ]; then
       | sed 's|^\./||' | grep -v -E '^(\.|date|roman|sem|size|test)(/|$)' | sort | tr '\n' ' ')
   (cd "$HOME_V/sim/rewrite" && go run main.go "$S/util" "$S/util/internal/vsim/c19/scan_gen.go" $PKGS)
 fi
+if [ "$ID" = C17 ]; then
+  # C17 runs the real packages; only the per-run reset of their package-level state is generated
+  (cd "$HOME_V/sim/rewrite" && go run main.go -reset "$S/util" "$S/util/internal/vsim/c17/reset_gen.go" date roman sem size uu)
+else
+  # keep the c17 package compilable in the other binaries
+  printf 'package c17\n\nfunc resetPackages() {}\n' > "$S/util/internal/vsim/c17/reset_gen.go"
+fi
 (cd "$S/util" && go build -tags "$TAGS" -o "$S/bin/verif" ./vsimcmd)
